@@ -66,6 +66,16 @@ Theorem C20_accepted_path_is_well_locked : forall (S L : Type) (sem : event -> L
 Proof. exact accepted_path_is_well_locked. Qed.
 Print Assumptions C20_accepted_path_is_well_locked.
 
+(* the two halves joined for THIS source: every path of every exported method of bloom.Filter (all ten documented-safe
+   operations, MatchTxAndUpdate and MsgFilterLoad included) that touches anything is a well-locked body of the
+   semantics, whatever its accesses and worker calls mean -- so C20_well_locked_linearizable applies to every program
+   made of calls of these methods, not only to the operations of the C09 instance below *)
+Theorem C20_bloom_source_bodies_well_locked : forall (S L : Type) (sem : event -> L -> S -> L * S) m p,
+  In m bloom_methods -> m_exported m = true -> In p (m_paths m) -> p <> [Return] ->
+  well_locked_body S L (compile S L sem p).
+Proof. exact bloom_source_bodies_well_locked. Qed.
+Print Assumptions C20_bloom_source_bodies_well_locked.
+
 (* with the C09 model as the meaning of the operations: a complete concurrent run of any programs over
    Add/AddHash/AddOutPoint/Matches/MatchesOutPoint/Reload/Unload/IsLoaded leaves the filter the model computes
    for some interleaving (the lock-acquisition order) that contains every operation of every goroutine *)
